@@ -23,4 +23,4 @@ rm -f $pkg/zz_demo_test.go
 echo "== with change: build + existing tests"
 (go build ./... && go test -vet=off -count=1 ./... 2>&1 | grep -v 'no test files')
 echo "== checks on /repo with the patch"
-/verif/tools/seedrun.sh $id "$checks"
+/verif/tools/scratchrun.sh /verif/seeded/$id/patch.diff "$checks"
